@@ -5,11 +5,12 @@ go 1.21
 require (
 	github.com/CrowdStrike/csproto v0.0.0
 	github.com/CrowdStrike/csproto/example v0.0.0
+	github.com/prometheus/client_model v0.0.0-20190812154241-14fe0d1b01d4
 	google.golang.org/protobuf v1.36.4
 )
 
 require (
-	github.com/gogo/protobuf v1.3.2 // indirect
+	github.com/gogo/protobuf v1.3.2
 	github.com/golang/protobuf v1.5.4 // indirect
 )
 
